@@ -6,16 +6,18 @@ Model functions ↔ Rust (Model/Plan.lean, Model/Satisfy.lean, Lemmas/PlanLocks.
   descGetSatisfaction / getSatisfaction ↔ Descriptor::get_satisfaction{,_mall}
   keyTemplate / keyGetSatisfaction ↔ Pkh/Wpkh::{plan_satisfaction, get_satisfaction}
   witnessToScriptSig ↔ util::witness_to_scriptsig  scriptsigSize/witnessSize ↔ Plan::{scriptsig_size, witness_size}
-  isKeyDirectChildOf / hasEcdsaKey ↔ plan::is_key_direct_child_of / Assets::has_ecdsa_key
+  isKeyDirectChildOf / hasEcdsaKey ↔ plan::is_key_direct_child_of / Assets::has_ecdsa_key (total)
   tSatDissat ↔ Satisfaction::sat_dissat carrying, next to every (dis)satisfaction, the list of
                `after` / `older` values of the fragments that (dis)satisfaction executes
 The plan path and the descriptor path run the same `sat_dissat`; the T1 theorems are about
 the glue and hold for EVERY template `t : Sat`.
 
-Findings proved here as negations on concrete witnesses (the full statements stay as
-`def …_full : Prop`):  F9 (`Plan::satisfy` for `sh(<miniscript>)` drops the redeem script and
-pushes `[1]` non-minimally), F7 (`is_key_direct_child_of` panics on an origin-less key), and
-three size formulas that undershoot.
+History: the negations of T1b (F9: `Plan::satisfy` for `sh(<miniscript>)` dropped the redeem
+script and pushed `[1]` non-minimally) and of T5 (F7: `is_key_direct_child_of` panicked on an
+origin-less key) were proved here against the earlier code; both are fixed in /repo, the model
+follows the fixed code and the theorems are now stated at full strength.  Still proved as
+negations: three size formulas that undershoot (`wsh` / `sh(wsh)` witness script not counted,
+`sh(wpkh)` / `sh(wsh)` scriptSig 23 / 35 instead of 24 / 36).
 -/
 import MsVerif.Model.Plan
 import MsVerif.Lemmas.PlanLocks
@@ -53,50 +55,39 @@ theorem plan_iff_satisfy_ok (d : DescData) (r : Ph → Option Bytes) (t : Sat)
   | unavailable => simp
   | impossible => simp
 
-/-- T1b (assembly): `Plan::satisfy` and `get_satisfaction` build the same (witness, scriptSig)
-from the same completed stack for every descriptor type except `sh(<miniscript>)`; for `bare`
-provided no stack item is a non-empty minimal script number (bare descriptors are `pk`,
-`pkh`, `multi`: signatures, keys and the empty dummy only). -/
-theorem plan_satisfy_eq_partial (d : DescData) (stack : List Bytes) (hsh : d.ty ≠ .sh)
-    (hbare : d.ty = .bare → ∀ b ∈ stack, b = [] ∨ readScriptInt b = none) :
+/-- T1b (assembly), all eight descriptor types: `Plan::satisfy` and `get_satisfaction` build
+the same (witness, scriptSig) from the same completed stack.  Unconditional for bare, sh, wpkh,
+sh-wpkh, wsh, sh-wsh, tr.  For `pkh` the descriptor path pushes signature and key with
+`push_slice` / `push_key` while the plan goes through `witness_to_scriptsig`; they agree when
+no item is a non-empty minimal script number — true of every signature and public key
+(`readScriptInt_long`: anything longer than 4 bytes). -/
+theorem plan_satisfy_eq (d : DescData) (stack : List Bytes)
+    (hpkh : d.ty = .pkh → ∀ b ∈ stack, b = [] ∨ readScriptInt b = none) :
     planSatisfy d stack = getSatisfaction d stack := by
   unfold planSatisfy getSatisfaction
   cases hty : d.ty <;> simp_all [DescData.unsignedScriptSig, witnessToScriptSig]
-  exact flatMap_congr_mem _ _ _ (fun b hb => (w2ssItem_eq_pushSlice b (hbare b hb)).symm)
+  exact flatMap_congr_mem _ _ _ (fun b hb => w2ssItem_eq_pushSlice b (hpkh b hb))
 
-/-- the full statement of T1b — FALSE of the current code -/
-def plan_satisfy_eq_full : Prop :=
-  ∀ (d : DescData) (stack : List Bytes), planSatisfy d stack = getSatisfaction d stack
+/-- T1b without side condition for the seven types other than `pkh` -/
+theorem plan_satisfy_eq_non_pkh (d : DescData) (stack : List Bytes) (h : d.ty ≠ .pkh) :
+    planSatisfy d stack = getSatisfaction d stack :=
+  plan_satisfy_eq d stack (fun hh => absurd hh h)
 
-/-- F9: for `sh(<miniscript>)` the plan's scriptSig lacks the redeem script
-(`sh(1)`-shaped witness: empty stack, redeem script `OP_1`) -/
-theorem plan_satisfy_eq_full_false : ¬ plan_satisfy_eq_full := by
-  intro h
-  have := h ⟨.sh, [0x51], []⟩ []
-  revert this
-  decide
+/-- the `sh(<miniscript>)` case spelled out: the redeem script is the last push and `[1]`
+is pushed as `OP_1` (the two halves of the former finding F9) -/
+theorem plan_satisfy_sh (script : Bytes) (stack : List Bytes) :
+    planSatisfy ⟨.sh, script, []⟩ stack = ([], witnessToScriptSig (stack ++ [script])) ∧
+    (planSatisfy ⟨.sh, [0xac], []⟩ [[1]]).2 = [0x51, 0x01, 0xac] := by
+  constructor
+  · rfl
+  · decide
 
-/-- F9, second half: even the pushes that ARE made differ — `Plan::satisfy` pushes the item
-`[1]` (`PushOne`, e.g. the `or_i` selector) as `01 01`, the descriptor path as `OP_1` -/
-theorem plan_satisfy_pushes_one_non_minimally :
-    (planSatisfy ⟨.sh, [], []⟩ [[1]]).2 = [0x01, 0x01] ∧
-    witnessToScriptSig [[1]] = [0x51] := by decide
-
-/-- T1b for the repaired glue (`witness_to_scriptsig` on `stack (++ redeem script)`):
-all eight descriptor types, every stack -/
-theorem plan_satisfy_eq_fixed (d : DescData) (stack : List Bytes) :
-    planSatisfyFixed d stack = getSatisfaction d stack := by
-  unfold planSatisfyFixed planSatisfy getSatisfaction
-  cases hty : d.ty <;> simp [DescData.unsignedScriptSig, hty]
-
-/-- T1 end to end on the model: whenever `get_satisfaction` returns `Ok x`, a plan exists and
-completing it (repaired glue) returns exactly `x`; with the current glue the same holds
-outside `sh(<miniscript>)` under the `bare` side condition. -/
-theorem plan_satisfy_eq (d : DescData) (r : Ph → Option Bytes) (t : Sat) (x : List Bytes × Bytes)
-    (h : descGetSatisfaction d r t = .ok x) :
-    ∃ p, intoPlan t = some p ∧ p.abs = t.abs ∧ p.rel = t.rel ∧ p.satisfyFixed d r = some x ∧
-      (d.ty ≠ .sh → (d.ty = .bare → ∀ l, complete r p.template = some l →
-          ∀ b ∈ l, b = [] ∨ readScriptInt b = none) → p.satisfy d r = some x) := by
+/-- T1 end to end for the miniscript-based types and `tr`: whenever `get_satisfaction`
+returns `Ok x`, a plan exists, carries the template's locks, and completing it with the same
+satisfier returns exactly `x`. -/
+theorem plan_satisfy_eq_e2e (d : DescData) (hty : d.ty ≠ .pkh) (r : Ph → Option Bytes) (t : Sat)
+    (x : List Bytes × Bytes) (h : descGetSatisfaction d r t = .ok x) :
+    ∃ p, intoPlan t = some p ∧ p.abs = t.abs ∧ p.rel = t.rel ∧ p.satisfy d r = some x := by
   unfold descGetSatisfaction msSatisfy at h
   cases hs : t.stack with
   | stack l =>
@@ -106,24 +97,25 @@ theorem plan_satisfy_eq (d : DescData) (r : Ph → Option Bytes) (t : Sat) (x : 
     | some bs =>
       simp only [hc] at h
       injection h with h
-      refine ⟨⟨l, t.abs, t.rel⟩, by simp [intoPlan, hs], rfl, rfl, ?_, ?_⟩
-      · simp [PlanM.satisfyFixed, hc, plan_satisfy_eq_fixed, h]
-      · intro hsh hbare
-        simp only [PlanM.satisfy, hc, Option.map_some]
-        rw [plan_satisfy_eq_partial d bs hsh (fun hb => hbare hb bs hc), h]
+      refine ⟨⟨l, t.abs, t.rel⟩, by simp [intoPlan, hs], rfl, rfl, ?_⟩
+      simp only [PlanM.satisfy, hc, Option.map_some]
+      rw [plan_satisfy_eq_non_pkh d bs hty, h]
   | unavailable => rw [hs] at h; simp at h
   | impossible => rw [hs] at h; simp at h
 
 example : descGetSatisfaction ⟨.wsh, [0xac], []⟩ (fun _ => some [7]) ⟨.stack [.ecdsaSig 0], true, none, some 10⟩
     = .ok ([[7], [0xac]], []) := by decide
+example : descGetSatisfaction ⟨.sh, [0xac], []⟩ (fun p => if p = .pushOne then some [1] else some [9, 9, 9, 9, 9])
+    ⟨.stack [.ecdsaSig 0, .pushOne], true, none, none⟩ = .ok ([], [5, 9, 9, 9, 9, 9, 0x51, 0x01, 0xac]) := by decide
 
 /-- T1 for the single-key descriptors (`pkh`, `wpkh`, `sh(wpkh)`): a plan exists iff the
 provider has the key; the satisfier succeeds iff it has a signature; with the provider being
 the view of the satisfier (`avail = sig.isSome`) the two coincide and the plan completes to
-the same bytes. -/
-theorem key_plan_iff_satisfy_eq (d : DescData) (hty : d.ty = .pkh ∨ d.ty = .wpkh ∨ d.ty = .shWpkh)
+the same bytes (`pkh`: signature and key longer than 4 bytes, as all are). -/
+theorem key_plan_iff_satisfy_eq (d : DescData) (_hty : d.ty = .pkh ∨ d.ty = .wpkh ∨ d.ty = .shWpkh)
     (k : Key) (n : Nat) (sig : Option Bytes) (pk : Bytes) (r : Ph → Option Bytes)
-    (hsig : r (.ecdsaSig k) = sig) (hpk : r (.pubkey k n) = some pk) :
+    (hsig : r (.ecdsaSig k) = sig) (hpk : r (.pubkey k n) = some pk)
+    (hlen : d.ty = .pkh → 4 < pk.length ∧ ∀ s, sig = some s → 4 < s.length) :
     ((intoPlan (keyTemplate k n sig.isSome)).isSome ↔ ∃ x, keyGetSatisfaction d sig pk = .ok x) ∧
     ∀ p, intoPlan (keyTemplate k n sig.isSome) = some p →
       (p.satisfy d r).map Outcome.ok = some (keyGetSatisfaction d sig pk) := by
@@ -137,8 +129,14 @@ theorem key_plan_iff_satisfy_eq (d : DescData) (hty : d.ty = .pkh ∨ d.ty = .wp
     have hc : complete r [Ph.ecdsaSig k, Ph.pubkey k n] = some [s, pk] := by
       simp [complete, hsig, hpk]
     simp only [PlanM.satisfy, hc, keyGetSatisfaction, Option.map_some]
-    rcases hty with h | h | h <;>
-      simp [planSatisfy, getSatisfaction, h]
+    rw [plan_satisfy_eq d [s, pk]]
+    intro hp b hb
+    right
+    have := hlen hp
+    simp only [List.mem_cons, List.not_mem_nil, or_false] at hb
+    rcases hb with rfl | rfl
+    · exact readScriptInt_long _ (this.2 _ rfl)
+    · exact readScriptInt_long _ this.1
 
 example : keyGetSatisfaction ⟨.shWpkh, [], [0, 20]⟩ (some [9]) [2] = .ok ([[9], [2]], [2, 0, 20]) := by decide
 
@@ -305,105 +303,61 @@ example : (satDissat (exCfg (· == 0)) exMs).sat.abs = some 200 ∧
 example : (satDissat (exCfg fun _ => true) exMs).sat.abs = none ∧
     (tSatDissat (exCfg fun _ => true) exMs).sat.A = [] := by decide
 
-/-! ## T5 — key-source matching; `is_key_direct_child_of` is total under the guard -/
+/-! ## T5 — key-source matching
 
-/-- F7: on an origin-less key (empty derivation path) and a source of the same fingerprint
-with a non-empty path the current code evaluates `path[..(0 - 1)]`: panic -/
-theorem is_key_direct_child_of_panics : isKeyDirectChildOf [] [1] = none := by decide
+`is_key_direct_child_of` and `Assets::has_ecdsa_key` are total (`Bool`-valued functions of the
+model; the `len - 1` on an empty path is guarded since the F7 fix) and decide the documented
+relation. -/
 
-/-- … and it propagates through `Assets::has_ecdsa_key` (hence `into_plan`) -/
-theorem has_ecdsa_key_panics : hasEcdsaKey isKeyDirectChildOf 7 [] [⟨7, [1], true⟩] = none := by decide
-
-/-- the full statement "never panics" — FALSE of the current code -/
-def is_key_direct_child_of_total_full : Prop := ∀ pk src, (isKeyDirectChildOf pk src).isSome
-
-theorem is_key_direct_child_of_total_full_false : ¬ is_key_direct_child_of_total_full :=
-  fun h => by have := h [] [1]; revert this; decide
-
-/-- T5: with the guard (`definite_path_len > 0 &&`) the function is total and decides exactly
-the documented relation: the source path is the key's path or the key's path minus its last
-child number -/
-theorem is_key_direct_child_of_fixed_spec (pk src : List Nat) :
-    ∃ b, isKeyDirectChildOfFixed pk src = some b ∧
-      (b = true ↔ (pk = src ∨ ∃ c, pk = src ++ [c])) := by
-  unfold isKeyDirectChildOfFixed
+/-- T5: `is_key_direct_child_of` holds exactly when the source path is the key's path or the
+key's path minus its last child number — for every pair of paths, the empty ones included -/
+theorem is_key_direct_child_of_spec (pk src : List Nat) :
+    isKeyDirectChildOf pk src = true ↔ (pk = src ∨ ∃ c, pk = src ++ [c]) := by
+  unfold isKeyDirectChildOf
   by_cases h : pk = src
-  · exact ⟨true, by simp [h], by simp [h]⟩
-  · refine ⟨decide (pk.length > 0) && src == pk.take (pk.length - 1), by simp only [h, if_false], ?_⟩
-    rw [← take_pred_eq_iff]
+  · simp [h]
+  · rw [← take_pred_eq_iff]
     simp [h]
 
-/-- the guard changes nothing where the current code does not panic -/
-theorem is_key_direct_child_of_fixed_agrees (pk src : List Nat) (b : Bool)
-    (h : isKeyDirectChildOf pk src = some b) : isKeyDirectChildOfFixed pk src = some b := by
-  unfold isKeyDirectChildOf at h
-  unfold isKeyDirectChildOfFixed
-  by_cases h1 : pk = src
-  · simp_all
-  · by_cases h2 : pk.length = 0
-    · simp_all
-    · have : pk.length > 0 := Nat.pos_of_ne_zero h2
-      simp_all
+/-- the former panic input (key without origin, same-fingerprint source of depth 1): `false` -/
+theorem is_key_direct_child_of_empty_path (src : List Nat) :
+    isKeyDirectChildOf [] src = decide (src = []) := by
+  unfold isKeyDirectChildOf
+  by_cases h : ([] : List Nat) = src
+  · simp [← h]
+  · have : src ≠ [] := fun hh => h hh.symm
+    simp [h, this]
 
-/-- T5: `Assets::has_ecdsa_key` with the guarded helper never panics and is the documented
-predicate: some source can sign ECDSA, has the key's fingerprint, and its path is the key's
-path or its parent -/
-theorem has_ecdsa_key_fixed_spec (fp : Nat) (path : List Nat) (srcs : List KeySrc) :
-    ∃ b, hasEcdsaKey isKeyDirectChildOfFixed fp path srcs = some b ∧
-      (b = true ↔ ∃ s ∈ srcs, s.ecdsa = true ∧ s.fp = fp ∧
-          (path = s.path ∨ ∃ c, path = s.path ++ [c])) := by
-  induction srcs with
-  | nil => exact ⟨false, rfl, by simp⟩
-  | cons s rest ih =>
-    obtain ⟨b, hb, hbs⟩ := ih
-    obtain ⟨m, hm, hms⟩ := is_key_direct_child_of_fixed_spec path s.path
-    unfold hasEcdsaKey
-    by_cases hc : (s.ecdsa && s.fp == fp) = true
-    · simp only [hc, if_true, hm]
-      have hc' : s.ecdsa = true ∧ s.fp = fp := by simpa using hc
-      cases m with
-      | true =>
-        refine ⟨true, rfl, ?_⟩
-        simp only [true_iff]
-        exact ⟨s, by simp, hc'.1, hc'.2, hms.mp rfl⟩
-      | false =>
-        refine ⟨b, hb, ?_⟩
-        rw [hbs]
-        constructor
-        · rintro ⟨x, hx, h⟩; exact ⟨x, by simp [hx], h⟩
-        · rintro ⟨x, hx, h⟩
-          rcases List.mem_cons.mp hx with rfl | hx
-          · exact absurd (hms.mpr h.2.2) (by simp)
-          · exact ⟨x, hx, h⟩
-    · simp only [hc]
-      refine ⟨b, by simpa using hb, ?_⟩
-      rw [hbs]
-      constructor
-      · rintro ⟨x, hx, h⟩; exact ⟨x, by simp [hx], h⟩
-      · rintro ⟨x, hx, h⟩
-        rcases List.mem_cons.mp hx with rfl | hx
-        · exact absurd (by simp [h.1, h.2.1]) hc
-        · exact ⟨x, hx, h⟩
+/-- T5: `Assets::has_ecdsa_key` is the documented predicate: some source can sign ECDSA, has
+the key's fingerprint, and its path is the key's path or its parent -/
+theorem has_ecdsa_key_spec (fp : Nat) (path : List Nat) (srcs : List KeySrc) :
+    hasEcdsaKey fp path srcs = true ↔
+      ∃ s ∈ srcs, s.ecdsa = true ∧ s.fp = fp ∧ (path = s.path ∨ ∃ c, path = s.path ++ [c]) := by
+  unfold hasEcdsaKey
+  simp only [List.any_eq_true, Bool.and_eq_true, beq_iff_eq, is_key_direct_child_of_spec]
+  constructor
+  · rintro ⟨s, hs, ⟨h1, h2⟩, h3⟩; exact ⟨s, hs, h1, h2, h3⟩
+  · rintro ⟨s, hs, h1, h2, h3⟩; exact ⟨s, hs, ⟨h1, h2⟩, h3⟩
 
-example : hasEcdsaKey isKeyDirectChildOfFixed 7 [48, 0, 5] [⟨7, [48], true⟩, ⟨7, [48, 0], true⟩] = some true := by
-  decide
+example : hasEcdsaKey 7 [48, 0, 5] [⟨7, [48], true⟩, ⟨7, [48, 0], true⟩] = true := by decide
+example : hasEcdsaKey 7 [] [⟨7, [1], true⟩] = false := by decide
 
-/-! ## sizes — what the announced figures leave out (negations on concrete witnesses) -/
+/-! ## sizes — what the announced figures still leave out (negations on concrete witnesses) -/
 
-/-- the statement "announced sizes are upper bounds of the serialized sizes of the spend that
-validates" — FALSE of the current code for `sh`, `wsh`, `sh(wsh)`, `sh(wpkh)` -/
+/-- the statement "announced sizes are upper bounds of the serialized sizes of the spend" —
+FALSE of the current code for `wsh`, `sh(wsh)`, `sh(wpkh)` (pinned by plan.rs's unit tests) -/
 def sizes_upper_bound_full : Prop :=
   ∀ (d : DescData) (t : List Ph) (stack : List Bytes),
     stack.length = t.length →
     (∀ i (h : i < t.length) (h' : i < stack.length), (stack[i]).length + 1 ≤ (t[i]).size) →
-    serializedScriptSigSize (planSatisfyFixed d stack).2 ≤ scriptsigSize d.ty (t.map Item.ph) ∧
-    serializedWitnessSize (planSatisfyFixed d stack).1 ≤ Plan.witnessSize d.ty (t.map Item.ph)
+    serializedScriptSigSize (planSatisfy d stack).2 ≤ scriptsigSize d.ty (t.map Item.ph) d.script.length ∧
+    serializedWitnessSize (planSatisfy d stack).1 ≤ Plan.witnessSize d.ty (t.map Item.ph)
 
 /-- `sh(wpkh)`: `scriptsig_size` says 23; the scriptSig `16 0014<20 bytes>` serializes to 24
 bytes (the push opcode of the witness program is not counted).  Same for `sh(wsh)`: 35 vs 36. -/
-theorem sh_segwit_scriptsig_size_off_by_one (d : DescData) (t : List Item)
+theorem sh_segwit_scriptsig_size_off_by_one (d : DescData) (t : List Item) (n : Nat)
     (h : (d.ty = .shWpkh ∧ d.inner.length = 22) ∨ (d.ty = .shWsh ∧ d.inner.length = 34)) :
-    serializedScriptSigSize d.unsignedScriptSig = scriptsigSize d.ty t + 1 := by
+    serializedScriptSigSize d.unsignedScriptSig = scriptsigSize d.ty t n + 1 := by
   rcases h with ⟨h, hl⟩ | ⟨h, hl⟩ <;>
     simp [DescData.unsignedScriptSig, h, serializedScriptSigSize, pushSlice, pushPrefix, hl,
       scriptsigSize, DescType.segwitVersion, varintLen]
@@ -423,5 +377,12 @@ theorem sizes_upper_bound_full_false : ¬ sizes_upper_bound_full := by
   have := (h ⟨.wsh, [0x51], []⟩ [] [] rfl (by intro i hi; simp at hi)).2
   revert this
   decide
+
+/-- `sh(<miniscript>)` after the F9 fix: the announced scriptSig size counts every template
+item, the redeem-script push, and the compact-size prefix of that byte count -/
+theorem sh_scriptsig_size_counts_redeem (t : List Item) (n : Nat) :
+    scriptsigSize .sh t n =
+      ((t.map Item.size).sum + pushLen n) + varintLen ((t.map Item.size).sum + pushLen n) := by
+  simp [scriptsigSize, DescType.segwitVersion]
 
 end MsVerif.C17
